@@ -337,10 +337,8 @@ func (s *Server) publishDiagnosticsAt(ctx context.Context, docURI protocol.Docum
 
 	settings := s.getSettings()
 	if !settings.Features.Diagnostics {
-		_ = s.client.PublishDiagnostics(ctx, &protocol.PublishDiagnosticsParams{
-			URI:         docURI,
-			Diagnostics: []protocol.Diagnostic{},
-		})
+		// like every other result: not when the document has moved on
+		s.publishIfCurrent(ctx, docURI, seq, []protocol.Diagnostic{})
 		return
 	}
 
